@@ -81,14 +81,13 @@
    C12_no_panic2_histories [F tables, U histories]: from the empty world every history of covered_step2 operations whose calls
                   are well-formed where they run (wf_ops2 / op2_wfh) runs to its end; C12_no_panic2_after_history: one more call.
                   Covered steps: Op1 (all 26), OpSort, OpSortModel, OpSetVersion, OpCheckCompat, OpSerializeFile, OpSerializeElem.
-   op2_wfh      = op_wf /\ op_wfv /\ SizeOk for Op1; handles / model numbers / file ids exist; ver_ok for set_version; and for
-                  OpSetVersion / OpCheckCompat the WORLD condition TypedU (agent-c17: every stored element type has the datatype
-                  its parent's stored type lists for its name; kept by histories without type-changing moves / copies,
-                  C17_typed_histories).  TypedU is NECESSARY:
-   C12_check_compat_panics_real [F]: a wf_ops history on the regenerated tables (a move that keeps the stored type) after which
-                  f_check RT w 0 1 = Pan _: ArxmlFile::check_version_compatibility / set_version PANIC there, in the model and on
-                  the implementation (findings/C12-panic-check-compat-mixup.json, `avh panics mixup`: 80 scenarios).
-   C12_check_compat_total [U]: in typed worlds (H12, FI, TypedU, PairOK) both calls return.
+   op2_wfh      = op_wf /\ op_wfv /\ SizeOk for Op1; handles / model numbers / file ids exist; ver_ok for set_version.
+   C12_check_compat_total [U]: ArxmlFile::check_version_compatibility / set_version return in every world with H12 and FI.
+                  History: the walk read the sub-element mask in the STORED type with the index list of the RECALCULATED type and
+                  panicked (index out of bounds) after a move / copy that keeps a stored type the new parent does not list — found
+                  here (`avh panics mixup`, 80 scenarios; findings/C12-panic-check-compat-mixup.json), predicted by the model on the
+                  regenerated tables, fixed in /repo 7fd71e4 (the mask is read in the recalculated type), the model followed.
+   C12_check_compat_mixup_fixed_real [F]: the state that used to panic (a wf_ops history on the real tables) is now checked.
    C12_serialize_file_total [U]: ArxmlFile::serialize returns for every file record in an H2 world and keeps H2.
    C12_coverage_step2: PENDING as steps are OpDuplicate and OpLoad.  Missing, precisely:
      OpDuplicate  (i) H12 is not kept by a FAILING duplicate: the dropped copy's root keeps `PModel c` for the dropped model number
@@ -104,7 +103,7 @@ From AV Require Import Tree.Heap Tree.Ops Tree.Script Tree.Inv Tree.NoPanic.
 From AV Require Import Tree.NoPanicProofsBase Tree.NoPanicProofsDepth Tree.NoPanicProofsCopy2 Tree.NoPanicProofsMain Tree.NoPanicReal.
 From AV Require Import Hash.HashRealAttr Tree.Script2 Tree.SortProofsHeap Tree.SortProofsReadyV Tree.IndexProofsNodeInv Tree.NoPanicProofsMoveX Tree.NoPanicFloat
   Tree.NoPanicProofsHist Tree.NoPanicProofsHistReal Tree.NoPanicProofsOp2 Tree.SortProofsReal Tree.NoPanicProofsHistEx.
-From AV Require Import Tree.Compat Tree.CompatTyped Tree.CompatHist1 Tree.Serialize Tree.NoPanicProofsFiles Tree.NoPanicProofsSerFile Tree.NoPanicProofsCompat
+From AV Require Import Tree.Compat Tree.Serialize Tree.NoPanicProofsFiles Tree.NoPanicProofsSerFile Tree.NoPanicProofsCompat
   Tree.NoPanicProofsCompatEx Tree.NoPanicProofsOp2Hist Tree.NoPanicProofsOp2HistReal Tree.NoPanicProofsOp2HistEx.
 Open Scope N_scope.
 
@@ -299,7 +298,7 @@ Theorem C12_no_panic2_after_history :
                 attr_schema_location root_attrs l empty_world = Val w ->
       wf_ops2 RT tab_element tab_attr tab_enum check_fn float_parse fmt LATEST name_index name_definition_ref attr_schema_location
               root_attrs l empty_world ->
-      covered_step2 o = true -> op2_wfh RT tab_element tab_enum w o ->
+      covered_step2 o = true -> op2_wfh tab_element tab_enum w o ->
       (forall s, run_op2F RT tab_element tab_attr tab_enum check_fn float_parse fmt LATEST name_index name_definition_ref
                           attr_schema_location root_attrs o w <> Pan s) /\
       run_op2F RT tab_element tab_attr tab_enum check_fn float_parse fmt LATEST name_index name_definition_ref
@@ -318,15 +317,15 @@ Proof. exact (conj mx_wf mx_fixed). Qed.
 
 Theorem C12_check_compat_total :
   forall (T : tables) (tab_el tab_at tab_en : nametab),
-    tables_ok12 T = true -> PairOK T ->
+    tables_ok12 T = true ->
     forall w f target,
-      H12 T tab_el tab_at tab_en w -> FI w -> TypedU T w -> f < N.of_nat (List.length (w_files w)) ->
+      H12 T tab_el tab_at tab_en w -> FI w -> f < N.of_nat (List.length (w_files w)) ->
       (exists r, f_check T w f target = Val r) /\
       (exists r w', f_set_version T f target w = Val (r, w')).
 Proof.
-  exact (fun T tab_el tab_at tab_en OK HP w f target I F TU L =>
-           conj (np_f_check T tab_el tab_at tab_en OK HP w f target I F TU L)
-                (np_f_set_version T tab_el tab_at tab_en OK HP w f target I F TU L)).
+  exact (fun T tab_el tab_at tab_en OK w f target I F L =>
+           conj (np_f_check T tab_el tab_at tab_en OK w f target I F L)
+                (np_f_set_version T tab_el tab_at tab_en OK w f target I F L)).
 Qed.
 
 Theorem C12_serialize_file_total :
